@@ -132,7 +132,7 @@ class RiemannIGEOS(SetupRiemannProblem):
         px = bisect(lambda p: RCR_call(p, self), 0., pmax)
       elif (ur > u_RCVR_val):
         soln_type = 'R,C,V,C,R'
-        print('the solution for this problem is not ready')
+        raise ValueError('the solution for this problem is not ready')
 
       # Determine the star state values for the contact discontinuity, and the
       # left/right star state vals for density, sound speed and internal energy.
